@@ -442,7 +442,7 @@ func newExec(w *World, fn *ssa.Function, c *Contract, split *int) *Exec {
 	if c != nil {
 		mode = c.Mode
 	}
-	var th Theory = IntTheory{}
+	var th Theory = IntTheory{bits: map[string]bitsInfo{}}
 	if mode == "bv" {
 		th = BVTheory{}
 	}
